@@ -92,7 +92,10 @@ def _parse_races(errtxt):
             frames = re.findall(r"^  (\S+)\(\)\n      (\S+):(\d+)", p, re.M)
             top = None
             for fn, path, line in frames:
-                if fn.startswith(("runtime.", "sync.", "sync/atomic.", "internal/", "context.", "time.")):
+                # standard-library frames (first path element without a dot, e.g. math/rand/v2,
+                # sync, runtime) are passed over: the racing accesses belong to whoever called them
+                first = fn.split("/")[0] if "/" in fn else fn.split(".")[0]
+                if "." not in first and first != "verifsim":
                     continue
                 top = (fn, path, int(line))
                 break
